@@ -80,8 +80,10 @@ BOUNDS = {
              "preloads.use_w_tilde in {None,True,False} x preloads.w_tilde present/absent, and preloads=None; shared-tables histories: one "
              "WTildeImaging object used by 3-4 successive w-tilde inversions with two independent symbolic data vectors and different "
              "mappers / mixes, shared via one Preloads object or via DatasetInterface, each compared with the mapping formalism on its "
-             "own inputs; positive-negative solver",
-    "thorough": "as quick plus geometry 'plus' (6x6 frame, 7 unmasked pixels, sub-size 2 with fractional mapping weights, 2x3 / 3x2 meshes), "
+             "own inputs; geometries tall / wide (9x5 / 5x9 frames, 5x2 / 2x5 unmasked strips, 5x3 / 3x5 PSFs) and big (7x7 frame, 3x3 block, noise "
+             "map x 2^16) with mixes [F,M], [M,M], 8 named-slot subsets, factory case and one shared-tables history each; concrete floats "
+             "compared relative to the largest magnitude of the expected output (1e-9); positive-negative solver",
+    "thorough": "as quick plus geometries col / row (3x1 / 1x3 PSFs) and 'plus' (6x6 frame, 7 unmasked pixels, sub-size 2 with fractional mapping weights, 2x3 / 3x2 meshes), "
                 "mixes [function list], [function list, mapper, mapper], [mapper, F, G], [G, mapper, mapper, F] (heterogeneous mixes with all subsets), k=3, all 31 non-empty subsets of the five further slots and "
                 "all ten slots together, slot values donated by an identical inversion of the other formalism, factory cases with the "
                 "degenerate-solution test switched on",
@@ -89,7 +91,7 @@ BOUNDS = {
 OUTSIDE = [
     "positive-only solver (fnnls; use_positive_only_solver=False throughout - C05 covers the solver)",
     "interferometer inversions, Delaunay/Voronoi mappers, adaptive regularization, noise covariance matrices",
-    "signed PSFs and non-square kernels (C04's recorded w-tilde defects live there); frames other than the two listed; more than 3 linear objects",
+    "signed PSFs; frames / PSF shapes other than the listed ones (non-square 5x3, 3x5, 3x1, 1x3 are covered); more than 4 linear objects",
     "preload values that were NOT computed from an identical dataset / identical linear objects (the property's precondition), incl. the "
     "w-tilde noise-map consistency check firing",
     "inputs whose degenerate-solution test (np.allclose on the reconstruction) lies within a factor 2 of its tolerance (decision margin); "
@@ -287,14 +289,27 @@ def _geom(name):
     elif name in ("tall", "wide", "col", "row", "big"):
         # 7x7 frame, central 3x3 block; non-square PSFs (5x3 / 3x5 / 3x1 / 1x3: row reach != column reach), and 'big': the sq3
         # PSF with the noise map in large units (x 2^16, still dyadic: entries of F ~ 1e-9, far below absolute tolerances)
-        mask = np.ones((7, 7), dtype=bool)
-        mask[2:5, 2:5] = False
+        # tall / col: 9x5 frame with a 5x2 unmasked strip, wide / row: its transpose - pixel pairs up to 4 rows (columns) apart,
+        # i.e. beyond the kernel's reach along the OTHER axis; big: 7x7 frame, central 3x3 block
+        if name in ("tall", "col"):
+            mask = np.ones((9, 5), dtype=bool)
+            mask[2:7, 1:3] = False
+        elif name in ("wide", "row"):
+            mask = np.ones((5, 9), dtype=bool)
+            mask[1:3, 2:7] = False
+        else:
+            mask = np.ones((7, 7), dtype=bool)
+            mask[2:5, 2:5] = False
         psf = {"tall": np.array([[0.0, 0.25, 0.125], [0.25, 0.5, 0.0], [0.5, 1.0, 0.25], [0.0, 0.5, 0.25], [0.125, 0.25, 0.0]]),
                "wide": np.array([[0.0, 0.25, 0.5, 0.0, 0.125], [0.25, 0.5, 1.0, 0.5, 0.25], [0.125, 0.0, 0.25, 0.25, 0.0]]),
                "col": np.array([[0.5], [1.0], [0.25]]), "row": np.array([[0.25, 1.0, 0.5]]),
                "big": np.array([[0.0, 0.5, 0.0], [0.5, 1.0, 0.25], [0.0, 0.25, 0.125]])}[name]
-        noise = np.array([1.0, 2.0, 1.0, 2.0, 4.0, 2.0, 1.0, 2.0, 0.5]) * (65536.0 if name == "big" else 1.0)
-        sub, mesh, mesh2 = 1, (3, 3), (2, 2)
+        if name == "big":
+            noise = np.array([1.0, 2.0, 1.0, 2.0, 4.0, 2.0, 1.0, 2.0, 0.5]) * 65536.0
+            sub, mesh, mesh2 = 1, (3, 3), (2, 2)
+        else:
+            noise = np.array([1.0, 2.0, 1.0, 2.0, 4.0, 2.0, 1.0, 2.0, 0.5, 1.0])
+            sub, mesh, mesh2 = (1, (3, 2), (2, 2)) if name in ("tall", "col") else (1, (2, 3), (2, 2))
     else:
         raise KeyError(name)
     n = int((~mask).sum())
@@ -477,7 +492,7 @@ def _body_seq(inp, geom, mix, wt, subsets, k, noise_sym, donor_wt=None):
         pl = _preloads(vals, subset)
         snap = np.array(pl.curvature_matrix, copy=True) if pl.curvature_matrix is not None else None
         for i in range(k):
-            pre = "%s/%s|%s|#%d|" % (mix, "wtilde" if wt else "mapping", tag, i)    # unique per case: every case's candidates get replayed
+            pre = "%s:%s/%s|%s|#%d|" % (geom, mix, "wtilde" if wt else "mapping", tag, i)    # unique per case: every case's candidates get replayed
             inv = hx.attempt(lambda: aa.Inversion(dataset=ds, linear_obj_list=objs, settings=_settings(wt), preloads=pl))
             if isinstance(inv, hx.Raised):
                 A[pre + "construct"], E[pre + "construct"] = inv, "constructed"
@@ -510,7 +525,7 @@ def _body_factory(inp, geom, mix):
         for p_wt in (None, True, False):
             for with_tables in (False, True):
                 pl = _preloads(vals, ("w_tilde",) if with_tables else (), use_w_tilde=p_wt)
-                pre = "%s|settings=%s,preloads.use_w_tilde=%s,preloads.w_tilde=%s|" % (mix, s_wt, p_wt, with_tables)
+                pre = "%s:%s|settings=%s,preloads.use_w_tilde=%s,preloads.w_tilde=%s|" % (geom, mix, s_wt, p_wt, with_tables)
                 inv = hx.attempt(lambda: _fresh_inversion(g, data, noise, mix, s_wt, preloads=pl))
                 if isinstance(inv, hx.Raised):
                     A[pre + "construct"], E[pre + "construct"] = inv, "constructed"
@@ -520,7 +535,7 @@ def _body_factory(inp, geom, mix):
                     E[pre + nme] = ref[nme]
     # "versus preloads=None": the explicit spelling of 'nothing preloaded' must behave like omitting the argument
     for s_wt in (True, False):
-        pre = "%s|settings=%s,preloads=None|" % (mix, s_wt)
+        pre = "%s:%s|settings=%s,preloads=None|" % (geom, mix, s_wt)
         inv = hx.attempt(lambda: _fresh_inversion(g, data, noise, mix, s_wt, preloads=None))
         if isinstance(inv, hx.Raised):
             A[pre + "construct"], E[pre + "construct"] = inv, "constructed"
@@ -548,7 +563,7 @@ def _body_tables(inp, geom, steps, share):
     pl = aa.Preloads(w_tilde=tables)
     A, E = {}, {}
     for i, (mix, which) in enumerate(steps):
-        pre = "%s|#%d %s data=%s|" % (share, i, mix, which)
+        pre = "%s:%s|#%d %s data=%s|" % (geom, share, i, mix, which)
         ref = {}
         _observe(_fresh_inversion(g, datas[which], noise, mix, False), OBSERVED, ref, "")
         if share == "preloads":
